@@ -16,7 +16,7 @@ from .common import SCtx, sctx, fnctx, is_self_call
 from .toposort_rules import check_toposort
 
 PROP = "C01"
-FLOORS = {"C01.R1": 7, "C01.R2": 5, "C01.R3": 8, "C01.R4": 2, "C01.R5": 7, "C01.R6": 1, "C01.R7": 4, "C01.R8": 14, "C01.R9": 30, "C01.R10": 7, "C01.R11": 4}
+FLOORS = {"C01.R1": 7, "C01.R2": 5, "C01.R3": 8, "C01.R4": 2, "C01.R5": 7, "C01.R6": 1, "C01.R7": 4, "C01.R8": 14, "C01.R9": 30, "C01.R10": 7, "C01.R11": 4, "C01.R12": 1, "C01.R13": 1}
 META = {
     "explanation": "Static discharge of the update protocol behind C01: on the control-flow graph of Manager.set_value "
                    "(after inlining of helpers) every path unregisters an existing definition, registers the new ExprTask, "
@@ -490,3 +490,13 @@ def check(col: Collector):
     with col.rule():
         shared(col, "C01.R11", [c04._leaves], select=lambda o: "_set_value#" in o.construct or "_get_value#" in o.construct,
                why="a value stored under the unevaluated key object is not the value later read under the evaluated key")
+    # round 7: the ordering / trigger edges written by register (both directions) and the refusal of a frozen manager *before*
+    # anything is removed
+    from . import c02, c17
+    with col.rule():
+        shared(col, "C01.R12", [c02._edges],
+               why="a dependency left out of deptasks / rtasks is a location whose change no longer re-runs (or no longer orders) the task")
+    with col.rule():
+        shared(col, "C01.R13", [c17._guard_dominance], select=lambda o: any(k in o.construct for k in ("Manager.unregister", "Manager.register", "Manager.set_value", "Manager.load", "Manager.copy_expr_from")),
+               why="an assignment refused on a frozen manager after the old definition was already removed leaves the location without its "
+                   "definition: it silently stops following its inputs")
